@@ -278,6 +278,53 @@ pub fn run(rep: &Report) {
     rep.set_exhaustive(true);
     rep.add_extra("matrix_argument_shapes", json!(per));
     rep.add_extra("matrix_bound", json!("arity 0..2 over the full pool, arity 3 over the 24-value small pool"));
+    // long arguments: every string length 0..=80 (mixed-case ASCII, multi-byte) through every string
+    // builtin, and tuples of 1..400 elements through min / max / contains / contains_any / len /
+    // str::from / typeof (look-alike values Int 1 / Float 1.0 / 0.0 / -0.0 among the needles)
+    let str_fns = ["len", "str::to_lowercase", "str::to_uppercase", "str::trim", "str::from", "typeof", "str::substring"];
+    common::enumerate(rep, "long-strings", 81 * 3 * str_fns.len() as u64, 32, &|i, l| {
+        let name = str_fns[(i % str_fns.len() as u64) as usize];
+        let r = i / str_fns.len() as u64;
+        let (len, kind) = ((r % 81) as usize, r / 81);
+        let text: String = (0..len)
+            .map(|k| match kind {
+                0 => ['a', 'B', 'c', 'D', ' ', 'x', 'Y', 'z'][(k * 5 + 3) % 8],
+                1 => ['ä', 'Ö', 'ß', 'a', 'Σ', 'ς', ' ', 'İ'][(k * 3 + 1) % 8],
+                _ => [' ', 'A', '\t', 'b'][(k / 7) % 4],
+            })
+            .collect();
+        let arg = if name == "str::substring" {
+            RV::Tuple(vec![RV::Str(text.clone()), RV::Int((len / 3) as i64), RV::Int(text.len().min(len / 3 + 20) as i64)])
+        } else {
+            RV::Str(text)
+        };
+        l.label("long string argument");
+        check_call(name, &arg, unit, None, l)
+    });
+    let sizes = refmodel::gen::SCALE_SIZES;
+    let tup_fns = ["min", "max", "contains", "contains_any", "len", "str::from", "typeof"];
+    common::enumerate(rep, "wide-tuples", sizes.len() as u64 * 4 * tup_fns.len() as u64, 8, &|i, l| {
+        let name = tup_fns[(i % tup_fns.len() as u64) as usize];
+        let r = i / tup_fns.len() as u64;
+        let n = sizes[(r % sizes.len() as u64) as usize];
+        let variant = r / sizes.len() as u64;
+        let elem = |k: usize| -> RV {
+            match variant {
+                0 => RV::Int((k as i64 * 37) % 101 - 50),
+                1 => if k % 3 == 0 { RV::Float(k as f64 * 0.5 - 7.25) } else { RV::Int(k as i64 - 9) },
+                2 => RV::Int(k as i64 + 1),
+                _ => if k % 2 == 0 { RV::Int(k as i64 + 1) } else { RV::Str(format!("s{}", k)) },
+            }
+        };
+        let tuple = RV::Tuple((0..n).map(elem).collect());
+        let arg = match name {
+            "contains" => RV::Tuple(vec![tuple, [RV::Float(1.0), RV::Int(n as i64), RV::Int(-999), RV::Float(-0.0)][variant as usize % 4].clone()]),
+            "contains_any" => RV::Tuple(vec![tuple, RV::Tuple(vec![RV::Float(1.0), RV::Float(2.5), RV::Float(3.5), RV::Float(-0.0), RV::Int(-999), RV::Str("zz".into())])]),
+            _ => tuple,
+        };
+        l.label("wide tuple argument");
+        check_call(name, &arg, unit, None, l)
+    });
     let n_random = rep.tier.pick(1_000_000u64, 60_000_000);
     common::random_search(rep, "random", 10, n_random, &arb_family_case, &|(name, arg): &(String, RV), l| {
         l.sample(2, || json!({"call": format!("{}(x)", name), "x": arg.to_string()}));
